@@ -88,8 +88,30 @@ def run(R, tier):
             for rep in range(3):           # A, B, A, B alternation of the two storage orders
                 order += [('gp', [two, (k1,)], 'float', False), ('gp', [two[::-1], (k1,)], 'float', False),
                           ('reverse', [two], 'int', False), ('reverse', [two[::-1]], 'int', False)]
+            # events that must not make anything be generated again: source-line cache cleared, an option that is not part of the
+            # generated code re-assigned, another operator failing while ITS code is generated, tables of the algebra read
+            cut = len(plan) + len(later) // 2
+            nulls = [1 << i for i, s_ in enumerate(alg.signature) if s_ == 0]
+            order = order[:cut] + [('@linecache', [], 'int', False), ('@simp_func', [], 'int', False),
+                                   ('div', [(canon[-1],), (nulls[0] if nulls else canon[1],)], 'int', False),   # fails during generation when the divisor is null
+                                   ('@read-tables', [], 'int', False)] + order[cut:]
             seen = set()
             for op, pats, kind, first in order:
+                if op.startswith('@'):
+                    R.count('event=' + op)
+                    try:
+                        if op == '@linecache':
+                            import linecache
+                            linecache.clearcache()
+                        elif op == '@simp_func':
+                            old_simp = alg.simp_func
+                            alg.simp_func = (lambda v, _f=old_simp: _f(v))
+                        else:
+                            alg.cayley if alg.d <= 4 else None
+                            alg.matrix_basis if 1 <= alg.d <= 3 else None
+                    except Exception:
+                        pass
+                    continue
                 mvs = [oc.make_mv(alg, list(p), coeffs(kind, rng, len(p))) for p in pats]
                 n_ev, n_cp, n_lk = len(probe.events), probe.compiles, len(probe.lookups)
                 try:
